@@ -107,6 +107,32 @@ def gen_statements(tier, seed):
                 out.append(('fill', rng.choice(TX.FILL)))
             out.append(p)
         cases.append(("S", out, True))
+    # D: the same text more than once: an inner combination, a whole component content or single values repeated in two
+    # components of one statement (with and without shared text around one of the occurrences)
+    for i in range(40 if tier == "quick" else 600):
+        a, b = rng.sample([s for s in TX.PAREN if ',p' not in s], 2)
+        inner = ('op', rng.choice(TX.OPS), ('leaf', tg.word()), ('leaf', tg.word()))
+        if rng.random() < 0.3:
+            inner = ('op', rng.choice(TX.OPS), inner, ('leaf', tg.word()))
+        k = i % 4
+        if k == 0:
+            ca = ('comb', '', ('op', rng.choice(TX.OPS), ('leaf', tg.word()), inner), '')
+            cb = ('comb', '', ('op', rng.choice(TX.OPS), ('leaf', tg.word()), inner), '')
+        elif k == 1:
+            ca = ('comb', '', ('op', rng.choice(TX.OPS), inner, ('leaf', tg.word())), '')
+            cb = ('comb', tg.word(), ('op', rng.choice(TX.OPS), ('sh', tg.word(), inner, ''), ('leaf', tg.word())), tg.word())
+        elif k == 2:
+            ca = ('comb', '', inner, '')
+            cb = ('comb', '', inner, '')
+        else:
+            w = tg.word()
+            ca = ('comb', '', ('op', rng.choice(TX.OPS), ('leaf', w), ('leaf', tg.word())), '')
+            cb = ('comb', '', ('op', rng.choice(TX.OPS), ('leaf', tg.word()), ('op', rng.choice(TX.OPS), ('leaf', w), ('leaf', tg.word()))), '')
+        parts = [('comp', a, '', '', ca), ('comp', b, '', '', cb)]
+        if 'I' not in (a, b):
+            parts.append(('comp', 'I', '', '', ('leaf', tg.word())))
+        rng.shuffle(parts)
+        cases.append(("D", parts, rng.random() < 0.5))
     return cases
 
 
@@ -169,6 +195,10 @@ def run(args):
             continue
         if r.get("err") != "NO_ERROR_DURING_PARSING":
             V.violation("parse:wellformed-statement-rejected", case, observed={"error": r.get("err")}, what="a well-formed statement is rejected")
+            continue
+        if r.get("parent_links"):
+            # component type, shared text, suffix and annotations of a value are read upwards through the parent links
+            V.violation("parse:tree-not-linked-upwards", case, observed={"tree": r["parent_links"]}, what="a node of the delivered tree does not point back to the combination that holds it")
             continue
         try:
             got = rnode(r["nodes"][0])[6][1]
